@@ -438,24 +438,53 @@ def r45(db, ctx):
     if not copy or not dflt:
         probs.append('expected one copied cell and one default cell')
     else:
-        tg, v = norm(copy['target']), norm(copy['value'])
-        b = m(('idx', ('call~', 'index_mut', ('$d', ('bin', 'Add', '$R', '$i'))), '$j'), tg)
-        bv = m(('idx', ('call~', '::index', ('$d2', '$i2')), ('bin', 'Add', '$j2', ('k', 1))), v)
-        if b is None or bv is None or b['$i'] != bv['$i2'] or b['$j'] != bv['$j2']:
-            probs.append(f'copy is {X.show(tg, 80)} := {X.show(v, 80)}, expected cell(R+i, j) := cell(i, j+1)')
+        CA = IA.Canon(f, R)
+        data = ('fld', ('p', 1), 'data')
+        Rexpr = ('bin', 'Sub', ('call', 'lightmotif::dense::DenseMatrix::rows', (data,)), ('fld', ('p', 1), 'wrap'))
+        tg, v = CA.canon(copy['target']), CA.canon(copy['value'])
+        bt = m(('at', ('at', '$d', '$rt'), '$ct'), tg)
+        bv = m(('at', ('at', '$d2', '$rs'), '$cs'), v)
+
+        def span_of(e):
+            """e = a + position of one loop: (a, lo, hi) with the position running over lo..hi, i.e. e in a+0 .. a+(hi-lo); None otherwise."""
+            ps = [x for x in X.walk(e) if IA.is_pos(x)]
+            if len(ps) != 1:
+                return None
+            ext = CA.extents.get(ps[0][1])
+            Ln = _loop_with_header_or_iter(f, R, ps[0][1]) if not isinstance(ps[0][1], tuple) else None
+            if not ext or len(ext) != 1 or ext[0][0] != 'sub' or Ln is None or len(_normal_exits(f, Ln)) != 1:
+                return None
+            l_ = X.lin(e)
+            pk = X.canon_atom(ps[0])
+            if l_.get(pk) != 1:
+                return None
+            rest = {k: v_ for k, v_ in l_.items() if k != pk and v_ != 0}
+            return rest, ext[0][2], ext[0][1]
+        if bt is None or bv is None or bt['$d'] != data or bv['$d2'] != data:
+            probs.append(f'copy is {X.show(tg, 80)} := {X.show(v, 80)}, expected cell(R+i, j) := cell(i, j+1) of self.data')
         else:
-            i, j = b['$i'], b['$j']
-            if not (i[0] == 'elem' and norm(i[1][2][0]) == ('k', 0) and norm(i[1][2][1]) == ('p', 2)):
+            if not X.lin_eq(bt['$rt'], ('bin', 'Add', Rexpr, bv['$rs'])):
+                probs.append(f'wrap row {X.show(bt["$rt"], 60)} is not R + source row {X.show(bv["$rs"], 40)} with R = rows - wrap')
+            if not X.lin_eq(bv['$cs'], ('bin', 'Add', bt['$ct'], ('k', 1))):
+                probs.append(f'source column {X.show(bv["$cs"], 40)} is not destination column {X.show(bt["$ct"], 40)} + 1')
+            si = span_of(bv['$rs'])
+            if not (si is not None and not si[0] and si[1] == ('k', 0) and norm(si[2]) == ('p', 2)):
                 probs.append('i does not range over 0..m')
-            jl = X.lin(j[1][2][1]) if j[0] == 'elem' else {}
-            if not (j[0] == 'elem' and norm(j[1][2][0]) == ('k', 0) and jl.get('', 0) == -1 and any('USIZE' in k for k in jl)):
+            sj = span_of(bt['$ct'])
+            okj = False
+            if sj is not None and not sj[0]:
+                # destination columns 0 .. hi - lo  must be 0 .. C - 1
+                cs_ = [x for x in X.walk(sj[2]) if common.is_usize_const(x, 'C')]
+                okj = bool(cs_) and X.lin_eq(('bin', 'Sub', sj[2], sj[1]), ('bin', 'Sub', cs_[0], ('k', 1)))
+            if not okj:
                 probs.append('j does not range over 0..C-1')
-            if 'DenseMatrix::rows' not in X.canon(b['$R']) or 'wrap' not in X.canon(b['$R']):
-                probs.append(f'row base is {X.show(b["$R"], 60)}, expected rows - wrap')
-        tg2 = norm(dflt['target'])
-        b2 = m(('idx', ('call~', 'index_mut', ('$d', ('bin', 'Add', '$R', '$i'))), '$last'), tg2)
-        ll = X.lin(b2['$last']) if b2 else {}
-        if b2 is None or not (ll.get('', 0) == -1 and any('USIZE' in k for k in ll)):
+        tg2 = CA.canon(dflt['target'])
+        b2 = m(('at', ('at', '$d', '$rt'), '$last'), tg2)
+        okd = False
+        if b2 is not None and b2['$d'] == data and bv is not None and bt is not None:
+            cs_ = [x for x in X.walk(b2['$last']) if common.is_usize_const(x, 'C')]
+            okd = bool(cs_) and X.lin_eq(b2['$last'], ('bin', 'Sub', cs_[0], ('k', 1))) and X.lin_eq(b2['$rt'], ('bin', 'Add', Rexpr, bv['$rs']))
+        if not okd:
             probs.append('the last column of a wrap row is not set to the default symbol')
     (ctx.ok if not probs else ctx.fail)('R4.5', f, 'wrap-row relation', *([['idempotent when m <= wrap', 'R from before the resize']] if not probs else ['; '.join(probs)]))
 
